@@ -69,13 +69,16 @@ def units(tier):
             for nblocks in (0, 1, 2, 3):
                 us.append((si, codec, nblocks))
             if not SCHEMAS[si][0].startswith(("bytes-big",)):
-                us.append((si, codec, "3+empty"))  # the three blocks with legal zero-record blocks after the first and at the end
+                us.append((si, codec, "3+empty"))
+            if SCHEMAS[si][0] in ("int", "record") and codec in ("null", "deflate"):
+                for mk in ("zeros", "ones", "magic"):  # sync markers that look special: blank, all ones, the file magic repeated
+                    us.append((si, codec, "marker:" + mk))  # the three blocks with legal zero-record blocks after the first and at the end
     return us
 
 
-def build(fa, si, codec, nblocks):
+def build(fa, si, codec, nblocks, marker_kind=None):
     name, raw, recs = SCHEMAS[si]
-    marker = cont.sync_marker()
+    marker = {None: cont.sync_marker(), "zeros": bytes(16), "ones": b"\xff" * 16, "magic": b"Obj\x01" * 4}[marker_kind]
     fo = io.BytesIO()
     w = fa.write.Writer(fo, copy.deepcopy(raw), codec=codec, sync_interval=10 ** 9, sync_marker=marker) if False else None
     from fastavro._write_py import Writer
@@ -99,7 +102,8 @@ def build(fa, si, codec, nblocks):
 
 
 _END = object()
-HOWS = ("reader", "block_reader", "reader-next", "block_reader-next")
+HOWS = ("reader", "block_reader", "reader-next", "block_reader-next", "reader+reader_schema", "block_reader+reader_schema")
+_RS = [None]
 
 
 def consume(fa, data, how):
@@ -121,6 +125,13 @@ def consume(fa, data, how):
                 if r is _END:
                     break
                 got.append(r)
+        elif how == "reader+reader_schema":
+            # a reader schema (here: a copy of the writer's) changes how records are resolved, not what counts as a file
+            for r in fa.reader(io.BytesIO(data), reader_schema=copy.deepcopy(_RS[0])):
+                got.append(r)
+        elif how == "block_reader+reader_schema":
+            for blk in fa.block_reader(io.BytesIO(data), reader_schema=copy.deepcopy(_RS[0])):
+                got.extend(blk)
         else:
             it = fa.block_reader(io.BytesIO(data))
             while True:
@@ -141,7 +152,11 @@ def run_unit(unit, tier):
     with_empty = nblocks == "3+empty"
     if with_empty:
         nblocks = 3
-    raw, written, data = build(fa, si, codec, nblocks)
+    marker_kind = None
+    if isinstance(nblocks, str) and nblocks.startswith("marker:"):
+        marker_kind, nblocks = nblocks.split(":")[1], 2
+    raw, written, data = build(fa, si, codec, nblocks, marker_kind)
+    _RS[0] = raw
     node, defs = names.resolve(raw)
     exp = [conform.normalise(node, defs, r) for r in written]
     if with_empty:
